@@ -23,7 +23,8 @@ MANIFEST = {
             'notification all tasks are compared with the expected effect.'
             '  Second session: 30% of the bound non-final tasks already carry an error record (non-zero exit on its way through output staging) when their pilot dies: the explanation must still name the pilot.'
             '  A third of the tasks carry an optional description attribute (restartable, stage_on_error, metadata, tags, priority, cleanup, name): none exempts a task from the rule.'
-            '  Waiting tasks are bound to a living pilot between the pilot events (late binding, no submission in between).',
+            '  Waiting tasks are bound to a living pilot between the pilot events (late binding, no submission in between).'
+            '  Pilots may be taken out of the task manager (remove_pilots) shortly before they end.',
     'note': 'facades are built with __new__ (upstream test idiom); the '
             'callback is registered by the real add_pilots; sampled, not '
             'enumerated.'}
